@@ -337,31 +337,32 @@ def visitor_meaning(rep, ex: Explorer):
                 else:
                     ok = f[0] == "opaque"
             rep.check(ok, "VISIT.meaning", site, "meaning", "Negation denotes ¬operand" if m == "visitNegation" else "parentheses denote their content", extracted=got, required="¬visit(operand)" if m == "visitNegation" else "visit(operand)", function=site)
-    # visitVar
-    qual, paths = run("visitVar")
+    # visitVar, evaluated on concrete identifiers (however the two constants are told apart: comparisons, a table, ...)
+    qual = f"{VIS}.visitVar"
     site = fn_label(prog, qual)
     n = 0
-    for p in paths:
-        if p.outcome[0] != "return":
-            continue
-        rv = p.outcome[1]
-        top = bottom = None
-        for k, v in p.decisions:
-            if k[0] == "cmp" and k[1] == "==":
-                if ("c", "Top") in k[2:]:
-                    top = v
-                if ("c", "Bottom") in k[2:]:
-                    bottom = v
-        n += 1
+    for text in ("Top", "Bottom", "a", "top", "bottom", "Topx", "T", "x_1", "TOP"):
+        def setup_v(I, text=text):
+            s = I.alloc(HObj(VIS, {"sigcheck": I.alloc(HList()), "signature": Sym("sig"), "visit": ExtV("antlr4.ParseTreeVisitor.visit")}))
+            tok = I.alloc(HObj("antlr4.Token", {"text": Const(text)}))
+            ctx = I.alloc(HObj("parser.CKBParser.CKBParser.VarContext", {"atom": tok}))
+            return [s, ctx], {}
+
+        paths = ex.run(qual, setup_v, summaries=summ, key="vis-var-" + text, models={"antlr4.ParseTreeVisitor.visit": visit_model})
+        rets = [p for p in paths if p.outcome[0] == "return"]
+        if len(paths) != 1 or len(rets) != 1:
+            raise AnalysisError(f"{site}: {len(paths)} paths for the concrete identifier {text!r} ({[k for p in paths for k, v in p.decisions][:2]!r})")
+        rv = rets[0].outcome[1]
         f = rv.f if isinstance(rv, FormulaV) else None
-        if top is True:
+        n += 1
+        if text == "Top":
             rep.check(f == F.TRUE, "VISIT.meaning", site, "Top", "Top denotes the constant true", extracted=F.show(f) if f else repr(rv), required="⊤", function=site)
-        elif bottom is True:
+        elif text == "Bottom":
             rep.check(f == F.FALSE, "VISIT.meaning", site, "Bottom", "Bottom denotes the constant false", extracted=F.show(f) if f else repr(rv), required="⊥", function=site)
         else:
-            ok = f is not None and f[0] == "atom" and f[1][0] == "name"
-            rep.check(ok and top is False and bottom is False, "VISIT.meaning", site, "atom", "any other identifier denotes the atom of that name", extracted=F.show(f) if f else repr(rv), required="Symbol(name)", function=site)
-    rep.floor("visitVar paths", n, 3)
+            ok = f is not None and f[0] == "atom" and (f[1] == text or f[1] == ("name", text) or f[1] == ("name", (text,)) or repr(f[1]).count(repr(text)) == 1 and "name" in repr(f[1]) or f[1] == ("c", text))
+            rep.check(ok, "VISIT.meaning", site, f"atom {text}", "any other identifier denotes the atom of that name", extracted=F.show(f) if f else repr(rv), required=f"Symbol({text!r})", function=site)
+    rep.floor("visitVar evaluations", n, 9)
     # visitCondition: argument binding and text
     qual, paths = run("visitCondition")
     site = fn_label(prog, qual)
@@ -551,14 +552,28 @@ def reject(rep, ex: Explorer, grammar):
             if entry_eof.get(entry):
                 rep.ok("REJECT.eof", site, f"entry rule {entry}", "the entry rule itself ends with EOF")
                 continue
-            # the NEXT token (lookahead 1) must be end of input
-            la = [(i, ev) for i, ev in calls if ev.method == "LA" and ev.typ == "CommonTokenStream" and i > ei and ev.args and ev.args[0] == Const(1)]
+            # the NEXT token (lookahead 1) must be end of input.  The runtime offers it as stream.LA(1), stream.LT(1).type and
+            # parser.getCurrentToken().type (after the entry rule returned, the current token is the first unconsumed one)
+            def _next_token_type(x):
+                r = repr(x)
+                return ("'LA'" in r) or ("'LT'" in r and "'type'" in r) or ("'getCurrentToken'" in r and "'type'" in r)
+
+            la = [(i, ev) for i, ev in calls if i > ei and ((ev.method in ("LA", "LT") and ev.typ == "CommonTokenStream" and ev.args and ev.args[0] == Const(1)) or (ev.method == "getCurrentToken" and ev.typ == "CKBParser"))]
+            # (every look-ahead after the entry rule is at distance 1)
+            far = [ev for i, ev in calls if i > ei and ev.method in ("LA", "LT") and ev.typ == "CommonTokenStream" and not (ev.args and ev.args[0] == Const(1))]
+            if far:
+                la = []
             checked = False
+            eof_tests = []
             for k, v in p.decisions:
-                if k[0] == "cmp" and k[1] == "==" and any(isinstance(x, tuple) and x[:1] == ("ext",) and str(x[1]).endswith("EOF") for x in k[2:]) and any("LA" in repr(x) for x in k[2:]):
-                    checked = v is True
+                if k[0] == "cmp" and k[1] == "==" and any(isinstance(x, tuple) and x[:1] == ("ext",) and str(x[1]).endswith("EOF") for x in k[2:]):
+                    eof_tests.append(k)
+                    if any(_next_token_type(x) for x in k[2:]):
+                        checked = v is True
+            if eof_tests and not (la and checked) and not any(_next_token_type(x) for k in eof_tests for x in k[2:]):
+                raise AnalysisError(f"{site}: a comparison with EOF that the analysis cannot relate to the next token: {show_pred(eof_tests[0])[:160]}")
             rep.check(bool(la) and checked, "REJECT.eof", site, f"entry rule {entry}", "text after a well-formed prefix is rejected: the entry rule ends with EOF or the wrapper checks that the token stream is at end of input before returning",
-                      extracted=f"grammar rule '{entry}' does not end with EOF; end-of-input check after parsing: {'present' if la else 'absent'}", required="EOF in the rule or LA(1) == EOF check", function=site)
+                      extracted=f"grammar rule '{entry}' does not end with EOF; end-of-input check after parsing: {'present' if la else 'absent'}", required="EOF in the rule or a check that the next token is EOF", function=site)
         rep.floor(f"entry-rule invocations in {fn}", n_entry, 1)
     rep.floor("wrapper return paths", n, 2)
 
